@@ -353,6 +353,10 @@ void QXmppOutgoingClient::_q_socketDisconnected()
     if (d->nextAddressState == QXmppOutgoingClientPrivate::TryNext) {
         d->connectToNextAddress();
     } else if (d->redirect) {
+        // the session of this connection is over (stream resumption state is kept)
+        if (d->sessionStarted) {
+            closeSession();
+        }
         d->connectToHost({ ServerAddress::Tcp, d->redirect->host, d->redirect->port });
         d->redirect.reset();
     } else {
